@@ -145,6 +145,27 @@ def run(ctx):
                     r["name"] = nm
                     file_of[id(r)] = f
             fa, bam, vcf = sc.write(d)
+            prephased = r2.random() < 0.3
+            if prephased:
+                # the input VCF already carries (arbitrary, mostly WRONG) phase information, as after an earlier run or
+                # another phaser; it is no phase input of this run, so it must not survive anywhere in the output —
+                # in particular not on records this run skips (--only-snvs, see the option below)
+                recs = sc.vcf_records()
+                ps_fmt = {"PS": '##FORMAT=<ID=PS,Number=1,Type=Integer,Description="Phase set identifier">'}
+                first_pos = {}
+                for rec in recs:
+                    first_pos.setdefault(rec["chrom"], rec["pos"] + 1)
+                    rec["format"] = ["GT", "PS"]
+                    for call in rec["calls"]:
+                        a, b = call["GT"].split("/")
+                        if a != b and r2.random() < 0.8:
+                            if r2.random() < 0.5:
+                                a, b = b, a
+                            call["GT"] = f"{a}|{b}"; call["PS"] = first_pos[rec["chrom"]]
+                        else:
+                            call["PS"] = "."
+                sim.write_vcf(vcf, sc.contigs, sc.samples, recs, fmt_defs=ps_fmt)
+                ctx.dist("input_vcf", "pre-phased (wrong)")
             bams = [bam]
             if two_files and len({file_of[id(r)] for r in sc.reads}) < 2:
                 two_files = False    # an empty alignment file is rejected by whatshap (not a C02 matter)
@@ -179,8 +200,10 @@ def run(ctx):
             nontrivial = False
             for si, s in enumerate(samples):
                 ph = sim.decode_phase(recs, si)
-                if s not in target and ph:
-                    ctx.fail(f"sample {s} was not selected but is phased in the output", desc, key="unselected-phased")
+                if s not in target:
+                    if ph and not prephased:
+                        ctx.fail(f"sample {s} was not selected but is phased in the output", desc, key="unselected-phased")
+                    continue   # an unselected sample keeps whatever its input calls carried (C04): nothing to compare
                 sets = {}
                 for (c, p), (ps, al) in ph.items():
                     sets.setdefault((c, ps), []).append((p, al))
